@@ -2,7 +2,8 @@
 # usage: tools/seedtest.sh <seed-dir> <property> [tier]   — apply a seeded change to /repo, run a check, undo.
 set -u
 d=$1; p=$2; tier=${3:-quick}
-cd /repo && git apply --3way "$d/patch.diff" 2>/dev/null || git -C /repo apply "$d/patch.diff" || { echo "PATCH DOES NOT APPLY"; git -C /repo checkout -- . ; exit 3; }
+pf="$d/patch.diff"; [ -f "$d/patch.rebased.diff" ] && pf="$d/patch.rebased.diff"
+cd /repo && git apply "$pf" || { echo "PATCH DOES NOT APPLY"; git -C /repo reset -q --hard HEAD; exit 3; }
 cp /verif/evidence/$p.json /tmp/ev_$p.json 2>/dev/null
 cd /verif && ./check $p --tier $tier 2>&1 | tail -3
 rc=$?
